@@ -141,14 +141,14 @@ def gen_history(rng):
     asc = bool(rng.random() < 0.6)
     if not asc:
         f, Z = f[::-1], Z[::-1]
-    ops = [{"op": "construct", "f": f, "Z": Z, "mask": _mk(_rand_mask(rng, n)), "asc": asc,
+    ops = [{"op": "construct", "f": f, "Z": Z, "mask": _mk(_rand_mask(rng, n)), "asc": asc, "np": bool(rng.random() < 0.25),
             "path": str(rng.choice(["", "/tmp/some dir/file.csv"])), "label": str(rng.choice(["", "lbl"]))}]
     nops = int(rng.integers(1, 14))
     fs = sorted(f)
     for _ in range(nops):
         k = rng.choice(["set_mask", "low_pass", "high_pass", "subtract", "roundtrip", "roundtrip_twice", "duplicate", "average", "set_mask"])
         if k == "set_mask":
-            ops.append({"op": "set_mask", "mask": _mk(_rand_mask(rng, n))})
+            ops.append({"op": "set_mask", "mask": _mk(_rand_mask(rng, n)), "np": bool(rng.random() < 0.25)})
         elif k in ("low_pass", "high_pass"):
             if rng.random() < 0.5:
                 c = float(rng.choice(fs))  # exactly on a point: boundary is exclusive
@@ -180,6 +180,11 @@ def _md(pairs):
     return {int(k): bool(v) for k, v in pairs}
 
 
+def _np_mask(md):
+    """the same mask with numpy scalar types (accepted by the API: masks are often built from array comparisons)"""
+    return {np.int64(k): np.bool_(v) for k, v in md.items()}
+
+
 # ------------------------------------------------------------------------------------------------
 # execution + oracle
 # ------------------------------------------------------------------------------------------------
@@ -199,8 +204,10 @@ def _cmp_views(ds, m, step, viol, hist):
         if got_mask != m.mask():
             bad(f"C05/mask-mismatch:{hist[step]['op']}", f"get_mask()={got_mask} expected {m.mask()}")
         seen = 0
-        for masked in (None, False, True):
-            exp = m.view(masked)
+        # the masked= argument is accepted as a Python or a NumPy boolean
+        np_args = step % 3 == 2
+        for masked in ((None, np.bool_(False), np.bool_(True)) if np_args else (None, False, True)):
+            exp = m.view(None if masked is None else bool(masked))
             ff = ds.get_frequencies(masked=masked)
             zz = ds.get_impedances(masked=masked)
             nn = ds.get_num_points(masked=masked)
@@ -265,7 +272,10 @@ def run_history(hist):
                 f = np.array(op["f"], dtype=float)
                 Z = np.array([complex(a, b) for a, b in op["Z"]])
                 md = _md(op["mask"])
-                caller = dict(md)
+                caller = _np_mask(md) if op.get("np") else dict(md)
+                if op.get("np"):
+                    stats["numpy_scalar_masks"] = stats.get("numpy_scalar_masks", 0) + 1
+                    md = dict(caller)
                 ds = DataSet(f, Z, mask=caller, path=op["path"], label=op["label"])
                 if caller != md or list(caller.keys()) != list(md.keys()):
                     bad(step, "C05/caller-mask-altered", f"mask passed {md} is now {caller}")
@@ -273,7 +283,10 @@ def run_history(hist):
                 m = Model(op["f"], [complex(a, b) for a, b in op["Z"]], md, path=op["path"], label=lbl, uuid=ds.uuid)
             elif k == "set_mask":
                 md = _md(op["mask"])
-                caller = dict(md)
+                caller = _np_mask(md) if op.get("np") else dict(md)
+                if op.get("np"):
+                    stats["numpy_scalar_masks"] = stats.get("numpy_scalar_masks", 0) + 1
+                    md = dict(caller)
                 ds.set_mask(caller)
                 if caller != md:
                     bad(step, "C05/caller-mask-altered", f"set_mask altered its argument {md} -> {caller}")
